@@ -50,7 +50,7 @@ PROP = dict(
                            "state:parse-with-2+-retained-paths": 8000, "monitor:nesting-verdicts": 12000,
                            "format:length-0": 700, "format:length-1": 700, "format:length-2": 700, "format:length-3": 700, "format:length-4": 700, "format:length-5": 700, "format:length-6": 700, "format:length-7": 700, "format:length-8": 700,
                            "monitor:format-fields-checked": 50000,
-                           "layout::load": 80000, "layout:rejected-text-on-populated-layout": 20000,
+                           "layout::load": 80000, "layout:top-level-long-option": 2000, "layout:rejected-text-on-populated-layout": 20000,
                            "monitor:layout-unchanged-after-rejected-text": 30000, "monitor:layout-items-after-good-load": 40000,
                            "layout:history-good-rejected-good": 6000,
                            "layout-text:unclosed-section:rejected": 3000, "layout-text:stray-section-end:rejected": 3000,
